@@ -290,7 +290,7 @@ func init() {
 						ls.ProjectToWGS84(tile)
 						ls.ProjectToTile(tile)
 						c.Evals(2 * (len(pa) + len(pb)))
-						if !orb.Equal(la.Features[0].Geometry, pa) || !orb.Equal(lb.Features[0].Geometry, pb) {
+						if !refmodel.EqualValues(la.Features[0].Geometry, pa) || !refmodel.EqualValues(lb.Features[0].Geometry, pb) {
 							c.Fail("", "integer tile coordinates do not come back exactly through Layers.ProjectToWGS84 / Layers.ProjectToTile with layers of different extents", map[string]interface{}{"tile": sv(tile), "extents": []uint32{extent, e2}, "first_layer": sv(pa), "first_back": sv(la.Features[0].Geometry), "second_layer": sv(pb), "second_back": sv(lb.Features[0].Geometry)})
 						}
 					}
